@@ -117,6 +117,8 @@ type frame struct {
 	panicking        bool
 	panic            any
 	phitemps         []value // temporaries for parallel phi assignment
+
+	symIdxUnsigned bool // static signedness of the index operand being resolved
 }
 
 func (fr *frame) get(key ssa.Value) value {
@@ -379,6 +381,8 @@ func visitInstr(fr *frame, instr ssa.Instruction) continuation {
 		x := fr.get(instr.X)
 		idx := fr.get(instr.Index)
 		if isSym(idx) {
+			_, sg, _ := basicSort(instr.Index.Type())
+			fr.symIdxUnsigned = !sg
 			idx = fr.symIndex(x, idx)
 		}
 		switch x := x.(type) {
@@ -394,6 +398,8 @@ func visitInstr(fr *frame, instr ssa.Instruction) continuation {
 		x := fr.get(instr.X)
 		idx := fr.get(instr.Index)
 		if isSym(idx) {
+			_, sg, _ := basicSort(instr.Index.Type())
+			fr.symIdxUnsigned = !sg
 			idx = fr.symIndex(x, idx)
 		}
 
@@ -402,6 +408,8 @@ func visitInstr(fr *frame, instr ssa.Instruction) continuation {
 			fr.env[instr] = x[asInt64(idx)]
 		case string:
 			fr.env[instr] = x[asInt64(idx)]
+		case symString:
+			fr.env[instr] = x.bytes[asInt64(idx)]
 		default:
 			panic(fmt.Sprintf("unexpected x type in Index: %T", x))
 		}
